@@ -128,7 +128,19 @@ where
                 other.as_mut().consume(processed);
                 // Check if we can squeeze a bit more data from the other side to send in the same frame
                 let mut should_shutdown = false;
-                while let Poll::Ready(Ok(new_buf)) = other.as_mut().poll_fill_buf(cx) {
+                let mut fill_error = None;
+                loop {
+                    let new_buf = match other.as_mut().poll_fill_buf(cx) {
+                        Poll::Ready(Ok(new_buf)) => new_buf,
+                        Poll::Ready(Err(e)) => {
+                            // The other side failed and did not keep our waker: send what we
+                            // have already taken from it, then report the error
+                            fill_error = Some(e);
+                            break;
+                        }
+                        // `poll_fill_buf` has our waker
+                        Poll::Pending => break,
+                    };
                     if new_buf.is_empty() {
                         // The other side is EOF'd, send what we have and then shutdown
                         should_shutdown = true;
@@ -149,9 +161,12 @@ where
                     *this.write_state = WriteState::Done(written_amt);
                     return Poll::Ready(Ok(written_amt));
                 }
+                *this.write_state = WriteState::Transferring(written_amt);
+                if let Some(e) = fill_error {
+                    return Poll::Ready(Err(e));
+                }
                 // Else: we exited the loop because `poll_fill_buf` returned `Pending`
                 // We return `Pending` and `poll_fill_buf` has our waker
-                *this.write_state = WriteState::Transferring(written_amt);
                 Poll::Pending
             }
             WriteState::Done(written_amt) => Poll::Ready(Ok(written_amt)),
